@@ -27,5 +27,11 @@ CHECKS.update({
   text="For every rule set of the scope (conflicting grammars included) x input configurations x precedence variants with %nonassoc x defaultReduce x minimizeDFA, plus scaled families (wide/chain/expr up to 24 terminals), every (state, terminal) action, every defined (state, nonterminal) goto and every terminal gotoState is decoded from the displacement encoding with the template's lookup code and compared with the default encoding; with defaultReduce only 'plain error -> the state's most frequent reduction' is allowed, %nonassoc errors must stay errors and nothing may become a shift.",
   note="Decode functions are transcriptions of the six-line lookups in go_parser.go.tmpl (bound to the template by C01 Layer B).",
   design="§5.C05"),
+ "C06": dict(
+  category="model_checking",
+  technique="bounded exhaustive enumeration of grammars x input configs; lock-step product exploration of the unminimized and minimized parser automata on all token strings",
+  text="Every rule set of the scope (conflicting grammars included) x 4-8 input configurations (several inputs, no-eoi, duplicated no-eoi inputs as created by synthetic lookahead inputs) x rule attributes {all distinct, all equal} x optimizeTables is compiled with MinimizeDFA off and on; both table sets are run from every input index (the entry state the generated Parse functions use) on every token string <= L in lock-step: same shifts, reductions of rules with equal (lhs, length, action, type), same accept/error outcome and position, same non-termination.",
+  note="Traces come from internal/tabinterp (transcription of the parser template, validated against generated code by C01 Layer B).",
+  design="§5.C06"),
 })
 NOT_APPLICABLE_REASON = {}
